@@ -35,8 +35,11 @@ def _exact(items):
     return agg, T, mean, e2
 
 
-def _snap(x, exact):
-    """floats within tolerance of the exact value print as the exact value"""
+def _snap(x, exact, must_be_exact=False):
+    """floats within tolerance of the exact value print as the exact value; with rational (Fraction) outcomes the
+    result must BE the exact rational"""
+    if must_be_exact and not isinstance(x, (Fraction, int)):
+        return "inexact:" + repr(x)
     if isinstance(x, Fraction) or (isinstance(x, int) and not isinstance(x, bool)):
         return C.frac_str(x)
     if isinstance(x, float):
@@ -66,7 +69,10 @@ def impl(case):
     mu = None if case.get("mu") is None else C.dec_out(case["mu"])
     m_used = mean if not mu else Fraction(mu)
     var = e2 - m_used * m_used
-    out = ["ok", "mean=" + _snap(h.mean(), mean), "var=" + _snap(h.variance(mu) if mu is not None else h.variance(), var)]
+    # E[X] and E[X^2]-E[X]^2 are computed "exactly for rational outcomes": any Fraction outcome (and no float) makes
+    # the library's arithmetic exact, so the answer must be the exact rational, not a float near it
+    rational = any(isinstance(o, Fraction) for o in h) and not any(isinstance(o, float) for o in h) and not isinstance(mu, float)
+    out = ["ok", "mean=" + _snap(h.mean(), mean, rational), "var=" + _snap(h.variance(mu) if mu is not None else h.variance(), var, rational)]
     dist = list(h.distribution())
     out.append("dist=" + ",".join("%s@%s" % (C.frac_str(o), C.frac_str(p)) for o, p in dist))
     out.append("sum=" + C.frac_str(sum(p for _, p in dist)) if dist else "sum=0/1")
@@ -169,6 +175,10 @@ def generate(rnd, tier, scale):
             h = []
         if rnd.random() < 0.25:
             h = gen.scale_h(h, rnd.choice([2, 3, 10, 3**40, 7 * 10**30, 10**400]))
+        if h and rnd.random() < 0.12:
+            # totals beyond 10**12 that do not reduce: probabilities are still exactly count/total
+            j = rnd.randrange(len(h))
+            h = [[o, rnd.choice([10**13 + 1, 2**61 - 1, 3**40 + 2, 6**16]) if i == j else c] for i, (o, c) in enumerate(h)]
         r = rnd.random()
         if r < 0.75:
             mu = None
